@@ -513,6 +513,9 @@ class EIG(BaseRoutine):
         self.summary()
         t1, s = elapsed()
 
+        # the time-domain routine updates the Jacobians lazily; evaluate them at the current operating point
+        system.j_update(models=system.exist.pflow_tds)
+
         self.calc_As()
         self.mu, self.pfactors, self.N, self.W = self.calc_pfactor()
         self._store_stats()
